@@ -87,8 +87,12 @@ def value_term(v, t, index):
     if t == 'S':
         if isinstance(v, Bo):
             raise Unsupported('boolean where scalar expected')
+        if isinstance(v, SOpt) and v.kind == 'S':
+            return '(%s.getD 0)' % v.name
         return sexpr(to_sc(v))
     if t == 'B':
+        if isinstance(v, SOpt) and v.kind == 'B':
+            return '(%s.getD false)' % v.name
         if not isinstance(v, (bool, Bo)):
             raise Unsupported('expected boolean result, got %r' % (v,))
         return bexpr(to_bo(v))
@@ -102,9 +106,18 @@ def value_term(v, t, index):
                 raise Unsupported('result of class %s where %s expected' % (v.cls.name, t))
             parts = []
             for (f, ft, slot, fcls) in STRUCTS[t]:
-                if slot not in v.slots or v.slots[slot] is None and ft != 'S':
+                is_opt = parse_type(ft)[0] == 'opt' if not isinstance(parse_type(ft), str) \
+                    else False
+                if slot not in v.slots or (v.slots[slot] is None and not is_opt):
                     raise Unsupported('slot %s of %s not set' % (slot, v.cls.name))
                 parts.append(value_term(v.slots[slot], ft, index))
+            extra = [sl for sl in v.slots if sl not in [x[2] for x in STRUCTS[t]]]
+            if t in __import__('mtypes').SLOT_COMPLETE and extra:
+                raise Unsupported('result has slots outside the model: %s' % extra)
+            if len(parts) > 5:
+                return '({\n      ' + ',\n      '.join(
+                    '%s := %s' % (f[0], pt) for f, pt in zip(STRUCTS[t], parts)) + \
+                    ' } : %s)' % lean_type(t)
             return '(⟨' + ', '.join(parts) + '⟩ : %s)' % lean_type(t)
         if isinstance(v, (tuple, list)) and len(v) == len(STRUCTS[t]) and \
                 all(ft == 'S' for (_, ft, _, _) in STRUCTS[t]):
@@ -115,7 +128,12 @@ def value_term(v, t, index):
         if v is None:
             return '(none : %s)' % lean_type(t)
         if isinstance(v, SOpt):
+            if parse_type(v.kind) != t[1]:
+                raise Unsupported('optional slot of kind %s stored where %s expected' % (
+                    v.kind, t[1]))
             return v.name
+        if t[1] == 'X':
+            return '(some ())'
         return '(some %s)' % value_term(v, t[1], index)
     if t[0] == 'list':
         if isinstance(v, SList):
